@@ -216,16 +216,24 @@ package routing
 
 // alias rewriting: every rule, condition and value is visited, and no dport/dip alias is left behind when
 // the values of a condition are looked at
+// ... and whatever has been rewritten so far was rewritten as documented: a condition name changes only from
+// dport to port or from dip to ip, a value key only from ""/domain to suffix or from contains to keyword.
 //@ func (*AliasOptimizer).Optimize
 //@   anchorsonly
 //@   nonilcheck
 //@   dyncalls noeffect
 //@   modifies *
-//@   at return 1 assert result0 == rules && result1 == nil
+//@   let okName(f *config_parser.Function) = f.Name == old(f.Name) || (old(f.Name) == "dport" && f.Name == "port") || (old(f.Name) == "dip" && f.Name == "ip")
+//@   let okKey(p *config_parser.Param) = p.Key == old(p.Key) || ((old(p.Key) == "" || old(p.Key) == "domain") && p.Key == "suffix") || (old(p.Key) == "contains" && p.Key == "keyword")
+//@   let okAll() = (forall f *config_parser.Function {f.Name} :: okName(f)) && (forall p *config_parser.Param {p.Key} :: okKey(p))
+//@   at return 1 assert result0 == rules && result1 == nil && okAll()
 //@   loop 1
+//@     invariant okAll()
 //@     exit $idx == len(rules)
 //@   loop 2
+//@     invariant okAll()
 //@     exit $idx == len(rule.AndFunctions)
 //@   loop 3
+//@     invariant okAll()
 //@     entry function.Name != "dport" && function.Name != "dip"
 //@     exit $idx == len(function.Params)
